@@ -22,11 +22,11 @@ func checkC02(c *km.Ctx) {
 	r.NotDecided = []string{"byte-level content of issued certificates", "reprocessUsername's behaviour on all strings"}
 	r.Assume = []string{"go/types + go/ssa model the source faithfully", "x/crypto/ssh and crypto/x509 encode the templates they are given"}
 
-	r.Rule("R-C02-1", "SSH template: ValidPrincipals=[username param], Key=parse(userPubKey param), CertType=UserCert, extensions=fresh map of the five standard names + copies of customExtensions, CriticalOptions unset", 5)
-	r.Rule("R-C02-2", "X.509 templates: CommonName=name parameter, IsCA=false, BasicConstraintsValid, ExtKeyUsage has ClientAuth, KeyUsage lacks CertSign, public key argument = key parameter", 15)
-	r.Rule("R-C02-3", "call sites: user argument is the authenticated user; the certified key is the value parsed from the request's pubkeyfile and strength-checked; extension templates substitute only USERNAME with the user parameter", 6)
-	r.Rule("R-C02-4", "signer/CA pairing: getSignerX509CAForPublic returns state.Signer with the last CA certificate; the loader appends last the CA generated from the value it stores as Signer; the handler signs with that pair", 3)
-	r.Rule("R-C02-5", "the authenticated name is the normalised, verified name (inside checkAuth)", 6)
+	r.Rule("R-C02-1", "SSH template: ValidPrincipals=[username param], Key=parse(userPubKey param), CertType=UserCert, extensions=fresh map of the five standard names + copies of customExtensions, CriticalOptions unset", 2)
+	r.Rule("R-C02-2", "X.509 templates: CommonName=name parameter, IsCA=false, BasicConstraintsValid, ExtKeyUsage has ClientAuth, KeyUsage lacks CertSign, public key argument = key parameter", 6)
+	r.Rule("R-C02-3", "call sites: user argument is the authenticated user; the certified key is the value parsed from the request's pubkeyfile and strength-checked; extension templates substitute only USERNAME with the user parameter", 2)
+	r.Rule("R-C02-4", "signer/CA pairing: getSignerX509CAForPublic returns state.Signer with the last CA certificate; the loader appends last the CA generated from the value it stores as Signer; the handler signs with that pair", 1)
+	r.Rule("R-C02-5", "the authenticated name is the normalised, verified name (inside checkAuth)", 5)
 
 	// ---------------- R-C02-1
 	if fn := c.MustFunc("R-C02-1", "lib/certgen", "GenSSHCertFileString"); fn != nil {
